@@ -245,6 +245,7 @@ class Timers:
                 self._guard("runUntilCurrent", self.r.runUntilCurrent)
             else:
                 self._guard("advance", self.r.advance, t)
+            to = self._guard("timeout", self.r.timeout) if self.kind == "reactor" else None
         finally:
             self.in_iter = False
         now = self.now
@@ -255,7 +256,6 @@ class Timers:
                     c.cid, c.sched, now))
                 break
         if reactor:
-            to = self._guard("timeout", self.r.timeout)
             pend = [c.sched for c in self.calls if c.status == "pending"]
             if pend:
                 lim = max(0, min(pend) - now)
